@@ -165,7 +165,7 @@ fn hostile_entries(nums: &[u64]) -> Vec<Line> {
 
 /// texts / signatures for (d)
 const SIG_CHARS: [&str; 10] = ["(", ")", "L", ";", "[", "I", "V", "\u{e9}", "/", "x"];
-const TXT_TOKENS: [&str; 12] = ["at ", "a", ".", "(", ")", ":", "1", "\u{e9}", " ", "Caused by: ", "\t", "\n"];
+const TXT_TOKENS: [&str; 15] = ["at ", "a", ".", "(", ")", ":", "1", "\u{e9}", " ", "Caused by: ", "\t", "\n", "Exception in thread \"", "\"", "\u{a0}"];
 
 fn text_visit(s: &str, m: &dyn Subj, c: &dyn Subj, as_sig: bool, acc: &mut Acc) {
     acc.states += 1;
@@ -243,9 +243,9 @@ pub fn run(tier: Tier) -> i32 {
     for i in 0..e_small.len() {
         work.push(Work::Struct2(i));
     }
-    let sdepth = if t { 7 } else { 6 };
+    let sdepth = if t { 6 } else { 5 };
     for a in 0..SIG_CHARS.len() {
-        work.push(Work::Sig(vec![a], sdepth));
+        work.push(Work::Sig(vec![a], sdepth + 1));
     }
     for a in 0..TXT_TOKENS.len() {
         for b in 0..TXT_TOKENS.len() {
@@ -337,7 +337,7 @@ pub fn run(tier: Tier) -> i32 {
         prop: "C13",
         tier,
         level: "model_checking",
-        rule: format!("(a) every string of <= {} tokens over 19 hostile tokens (numerals 0, 2^32-2, 2^32-1, 2^32, 2^64-1, 2^64, 30 digits; invalid UTF-8; Latin-1 'numeric' byte; empty names; empty sourceFile) as a mapping; (b) class line + 1 entry with all four numbers (and every combination of the optional originals) from 7 hostile numerals ({} entries), + all pairs of entries over a {}-numeral sub-alphabet; each through the whole pipeline (mapper with/without index, cache written to memory and parsed, class/method/frame queries with lines 0,1,3,5,6,2^32-1,2^32,2^64-2,2^64-1, by-params, text and typed trace, signatures); (d) every string of <= {} symbols over a 10-character descriptor alphabet as signature and over 12 trace tokens (multi-byte character, tab, 'Caused by: ', LF) as trace text / frame / throwable. Oracle: no panic (overflow checks compiled in), no Err. (e) every mapping of the scale family (classes of up to 129 entries, 301 classes, 100-deep inline groups, names up to 65537 bytes) and of the character-class family (105 special characters, sort pool, synthetic-file name shapes) through the pipeline with query names taken from the mapping; (f) signatures with 127..70000 array dimensions / parameters / name bytes and trace lines of 1.1 kB / 70 kB. Beyond the bound (not part of the exhaustive claim): scale family cause depth / frame count in {{64, 4096, 200000}} in a subprocess. distinct = distinct answer digests", tdepth, e_full.len(), small.len(), sdepth),
+        rule: format!("(a) every string of <= {} tokens over 19 hostile tokens (numerals 0, 2^32-2, 2^32-1, 2^32, 2^64-1, 2^64, 30 digits; invalid UTF-8; Latin-1 'numeric' byte; empty names; empty sourceFile) as a mapping; (b) class line + 1 entry with all four numbers (and every combination of the optional originals) from 7 hostile numerals ({} entries), + all pairs of entries over a {}-numeral sub-alphabet; each through the whole pipeline (mapper with/without index, cache written to memory and parsed, class/method/frame queries with lines 0,1,3,5,6,2^32-1,2^32,2^64-2,2^64-1, by-params, text and typed trace, signatures); (d) every string of <= {} symbols over a 10-character descriptor alphabet as signature and over 15 trace tokens (multi-byte character, tab, NBSP, 'Caused by: ', 'Exception in thread \"', '\"', LF) as trace text / frame / throwable. Oracle: no panic (overflow checks compiled in), no Err. (e) every mapping of the scale family (classes of up to 129 entries, 301 classes, 100-deep inline groups, names up to 65537 bytes) and of the character-class family (105 special characters, sort pool, synthetic-file name shapes) through the pipeline with query names taken from the mapping; (f) signatures with 127..70000 array dimensions / parameters / name bytes and trace lines of 1.1 kB / 70 kB. Beyond the bound (not part of the exhaustive claim): scale family cause depth / frame count in {{64, 4096, 200000}} in a subprocess. distinct = distinct answer digests", tdepth, e_full.len(), small.len(), sdepth),
         bounds: json!({"token_depth": tdepth, "tokens": H_TOKENS.iter().map(|t| esc(t)).collect::<Vec<_>>(), "hostile_numerals": H_NUMS.iter().map(|n| n.to_string()).collect::<Vec<_>>(), "string_depth": sdepth}),
         assumptions: vec!["overflow checks and debug assertions are compiled into the subject (release profile of pgmc)".into()],
         trusted_base: vec!["rustc/std".into(), "catch_unwind + panic hook for attribution".into()],
